@@ -62,7 +62,7 @@ func c20Precedence(p *Prog, r *Report) {
 		return
 	}
 	info := fi.Pkg.TypesInfo
-	f := p.FlatOf(fi)
+	f := p.FlatInlExcept(fi, kCfgParseEnv, kValid) // the decode may sit in a helper that owns the file
 	sig := fi.Obj.Type().(*types.Signature)
 	// success returns and the variable they return
 	var succ []int
@@ -143,6 +143,14 @@ func c20Precedence(p *Prog, r *Report) {
 		for _, a := range d.Call.Args {
 			if u, isU := ast.Unparen(a).(*ast.UnaryExpr); isU && u.Op == token.AND && objOf(info, u.X) == conf {
 				ok = true
+			}
+			// inside a helper that was handed &conf: the pointer parameter names the same storage
+			if conf != nil && f.CanonPath(a) == objID(conf) {
+				if tv, isT := info.Types[a]; isT {
+					if _, isPtr := tv.Type.Underlying().(*types.Pointer); isPtr {
+						ok = true
+					}
+				}
 			}
 		}
 		r.Check(ok, "C20.a", kParseConfig+"#decode-target", p.pos(d.Call), "Decode(&conf) targets the returned value", "the YAML document is decoded into a different value than the one returned")
